@@ -10,7 +10,7 @@ from __future__ import annotations
 import z3
 
 from pyvc import values as V
-from pyvc.interp import ModelObject
+from pyvc.interp import ModelObject, PvDict
 from pyvc.spec import Args, Spec
 from pyvc.values import Arr, Unsupported
 
@@ -50,13 +50,7 @@ class ForcingStepsTables(Spec):
             arr = Arr((n,), lambda k: times[k] if isinstance(k, int) else times[z3.simplify(V.to_z3(k)).as_long()], "int")
             return (arr, dict(zip(files, spec.counts)))
 
-        def new_dict(interp, *a, **k):
-            if a or k:
-                return dict(*a, **k)
-            return StoreSeq()
-
         self.callees = {"ladim.ROMS.scan_file_times": scan}
-        self.externals = {"builtins.dict": new_dict}
 
     def inputs(self, cx):
         files = [f"file{k}" for k in range(len(self.counts))]
@@ -70,11 +64,13 @@ class ForcingStepsTables(Spec):
         times = [z3.Int(f"frame_time_{k}") for k in range(n)]
         t = a.timer.attrs
         out = [("C20: a normal return means the frames cover the simulated window", z3.And(times[0] <= t["min_time"], times[-1] >= t["max_time"]))]
-        ok = isinstance(result, tuple) and len(result) == 3 and isinstance(result[0], list) and len(result[0]) == n and isinstance(result[1], StoreSeq) and isinstance(result[2], StoreSeq)
+        ok = isinstance(result, tuple) and len(result) == 3 and isinstance(result[0], list) and len(result[0]) == n and isinstance(result[1], PvDict) and isinstance(result[2], PvDict) and not len(result[1]) and not len(result[2])
         out.append(("C03: returns (steps, file table, record table) with one step per frame", ok))
         if not ok:
             return out
-        steps, fidx, ridx = result
+        steps = result[0]
+        fidx, ridx = StoreSeq(), StoreSeq()
+        fidx.stores, ridx.stores = list(result[1].sym_stores), list(result[2].sym_stores)
         where = [(f, i) for f, c in zip(a.files, self.counts) for i in range(c)]
         for k in range(n):
             out.append((f"C03: steps[{k}] == time2step(time of frame {k})", V.s_cmp("==", steps[k], time2step_spec(a.timer, times[k]))))
